@@ -499,7 +499,11 @@ class TFLiteSupportedOperators:
     def constraint_weights_limit(cls, op):
         "The sum of the weights cannot exceed {}"
         weights = op.weights
-        values = weights.values.astype(np.int64) - weights.quantization.zero_point
+        zero_point = np.asarray(weights.quantization.zero_point)
+        if zero_point.size > 1 and weights.values.shape[-1] == 1 and weights.values.shape[-2] == zero_point.size:
+            # Per-channel zero points of depthwise weights (H, W, C, 1) belong to axis C, not to the last axis
+            zero_point = zero_point.reshape((1,) * (weights.values.ndim - 2) + (zero_point.size, 1))
+        values = weights.values.astype(np.int64) - zero_point
         limit = np.amax(np.sum(np.absolute(values), axis=(0, 1, 2)))
         valid = limit <= cls.weights_limit
         return valid, f"Tensor '{weights.name}' has the sum of weights: {limit}"
